@@ -106,6 +106,22 @@ Proof. intros k s. unfold run2, a_revindex0. cbn [m_query]. crunch. Qed.
 Theorem async_revindex_source_eq_model : forall k s, as_answer (run2 k a_revindex s []) = m_query k s QRevindex.
 Proof. intros k s. unfold run2, a_revindex. cbn [m_query]. crunch. Qed.
 
+(* len(loop): the sync class answers with loop.length; the async class cannot await, it answers from the cached
+   length or from len(iterable) and raises TypeError for an iterable without len() *)
+Theorem len_source_eq_model : forall k s, as_num (run2 k s_len s []) = m_length k s.
+Proof. intros k s. unfold run2, s_len. crunch. Qed.
+Theorem async_len_source_eq_model : forall k s,
+  as_answer (run1 k a_len s []) =
+  match lenc s with
+  | Some n => (s, ANum n)
+  | None => match k with
+            | Sized => (upd s (rem s) (after s) (Some (zlen (iterable s))) (before s) (current s) (index0 s) (last_changed s),
+                        ANum (zlen (iterable s)))
+            | Unsized => (s, ATypeError)
+            end
+  end.
+Proof. intros k s. unfold run1, a_len. destruct k; crunch; closes. Qed.
+
 Print Assumptions length_source_eq_model.
 Print Assumptions next_source_eq_model.
 Print Assumptions async_peek_source_eq_model.
